@@ -102,6 +102,12 @@ func (db *Backend) ListBucket(name string, prefix *gofakes3.Prefix, page gofakes
 
 	var lastMatchedPart string
 
+	if page.Marker != "" && prefix.Match(page.Marker, &match) && match.CommonPrefix {
+		// The marker lies inside a common prefix that the previous page has
+		// already reported: the remaining keys below it must not report it again.
+		lastMatchedPart = match.MatchedPart
+	}
+
 	for iter.Next() {
 		item := iter.Value().(*bucketObject)
 
